@@ -20,6 +20,21 @@ Oracle (independent of the Lean model):
   suffix      a consumer attached later sees a contiguous suffix of the same sequence;
   capacity    re-running with the receiver limit set to a schedule-determined bound of the backlog (samples delivered
               on a stream minus outputs emitted so far) gives the same outputs.
+Terms with a fallback (kind "fb"):
+  {"kind": "fb", "n", "nz", "fb": [0 none | 1 channel-backed FallbackMetricFetcher | 2/3 real
+   FallbackFormulaMetricFetcher over 1/2 component channels], "t0us", "stepus", "cap",
+   "events": [["D", i, tick, val, settle?] | ["F", i, tick, [component vals], settle?] | ["attach"]]}
+`F` = the fallback source of term i emits its (gap-free) next tick; the lazily started fallback only sees what is
+emitted after its `start()`.  Values: a sample of stream position p stamped t is (t+1)*256**p (`fb_layout`), so a
+value reveals which (stream, tick)s it was computed from.  The real run records the completion of every
+`fetch_next()` between the harness actions; the Lean model (`Evaluator.stepF`, events `dP`/`dF`/`fetch`) replays that
+trace: it must be able to take every observed fetch with the same result, must have none left to take wherever the
+real loop was quiescent, and must emit the same outputs.
+Oracle for "fb" (independent of the model): first / step as above; single-ts: the value of an output stamped T is
+the formula on, per term, the primary sample stamped T if valid, else the fallback sample stamped T or the invalid
+primary sample itself (fallback not started / not there yet — C19's start-up window); never a sample stamped != T;
+complete: every tick up to the first invalid primary sample of a term with a fallback is emitted.
+
 No known-finding regime: the 3-phase engine is expected to hold in full (fixes/C06-3phase-resync.patch); on a tree
 without the patch the witness corpus/C06/three_phase_different_start.json fails (per-phase engines with different
 first common timestamps are zipped without comparing timestamps).
@@ -36,7 +51,12 @@ RULE = ("1-4 gap-free streams per engine with first ticks differing by 0-3, valu
         "nones_are_zeros, random order-preserving interleavings of the deliveries (bursty / round-robin / one stream "
         "far ahead), sends with and without a loop yield, consumer attached before / between / after the deliveries, "
         "receiver limit = default or exactly the largest backlog; single-phase and 3-phase engines; non-trivial = "
-        ">=2 streams with different first ticks or lag >= 2 between streams at some point; distinct by canonical JSON hash")
+        ">=2 streams with different first ticks or lag >= 2 between streams at some point; plus engines of 1-3 terms "
+        "with fallbacks (channel-backed FallbackMetricFetcher / real FallbackFormulaMetricFetcher over 1-2 components): "
+        "primaries valid/invalid in runs, fallback source a gap-free stream starting -2..+4 ticks around the primary, "
+        "wall-clock schedules with lagging terms / backlog before attach / random interleavings, so the lazily started "
+        "fallback's first sample is earlier than / equal to / later than the primary sample being processed "
+        "(non-trivial = a fallback was started and saw a sample); distinct by canonical JSON hash")
 
 
 
@@ -136,9 +156,152 @@ async def _run_3phase(case: dict) -> dict:
     return {"out_us": outs, "spinning": spinning}
 
 
+# fallback kind of a term -> number of fallback component channels
+FB_NONE, FB_FAKE, FB_REAL1, FB_REAL2 = 0, 1, 2, 3
+FB_COMPONENTS = {FB_NONE: 0, FB_FAKE: 1, FB_REAL1: 1, FB_REAL2: 2}
+
+
+def fb_output(kind: int, vals: list[Any]) -> Any:
+    """The sample value the fallback source of a term emits for one tick, from the component values fed: the
+    channel-backed `FallbackMetricFetcher` passes the value through; the real `FallbackFormulaMetricFetcher` runs a
+    real FormulaEngine summing its components with nones_are_zeros (so it is never missing)."""
+    if kind == FB_FAKE:
+        return rat(Fraction(vals[0])) if g.is_valid(vals[0]) else None
+    return rat(sum((Fraction(v) for v in vals[:FB_COMPONENTS[kind]] if g.is_valid(v)), Fraction(0)))
+
+
+async def _run_fb(case: dict) -> dict:
+    """Engine whose terms may have a fallback.  Besides the outputs, the completion of every `fetch_next()` is
+    recorded in real order between the harness actions (the trace the Lean model replays)."""
+    fe = g.import_engine()
+    from frequenz.channels import Broadcast
+    from frequenz.quantities import Quantity
+    from frequenz.sdk.timeseries.formula_engine._formula_generators._fallback_formula_metric_fetcher import (
+        FallbackFormulaMetricFetcher,
+    )
+    from frequenz.sdk.timeseries.formula_engine._formula_steps import FallbackMetricFetcher
+
+    grid = g.Grid(case["t0us"], case["stepus"])
+    n = case["n"]
+    limit = case.get("cap", 50)
+    chans_p = [Broadcast(name=f"p{i}") for i in range(n)]
+    rxs = [c.new_receiver(limit=limit) for c in chans_p]
+    chans_f = [[Broadcast(name=f"f{i}c{j}") for j in range(FB_COMPONENTS[case["fb"][i]])] for i in range(n)]
+    trace: list[Any] = []
+    fetched: list[Any] = []
+    stopping: list[bool] = []
+
+    class ChannelFallback(FallbackMetricFetcher):  # type: ignore[type-arg]
+        """A `FallbackMetricFetcher` backed by a real channel: the receiver is created by start()."""
+
+        def __init__(self, i: int) -> None:
+            super().__init__()
+            self._i = i
+            self._rx = None
+
+        @property
+        def name(self) -> str:
+            return f"fallback{self._i}"
+
+        @property
+        def is_running(self) -> bool:
+            return self._rx is not None
+
+        def start(self) -> None:
+            self._rx = chans_f[self._i][0].new_receiver(limit=1000)
+
+        async def ready(self) -> bool:
+            assert self._rx is not None
+            return await self._rx.ready()
+
+        def consume(self):
+            assert self._rx is not None
+            return self._rx.consume()
+
+    class Gen:
+        """Stands in for a FormulaGenerator: a real FormulaEngine summing the fallback components (None = 0)."""
+
+        def __init__(self, i: int) -> None:
+            self.namespace = f"fallback{i}"
+            self._i = i
+
+        def generate(self):
+            fb = fe.FormulaBuilder(self.namespace, Quantity)
+            for j, c in enumerate(chans_f[self._i]):
+                if j:
+                    fb.push_oper("+")
+                fb.push_metric(f"#f{self._i}c{j}", c.new_receiver(limit=1000), nones_are_zeros=True)
+            return fb.build()
+
+    fallbacks: list[Any] = []
+    for i in range(n):
+        kind = case["fb"][i]
+        fallbacks.append(None if kind == FB_NONE else ChannelFallback(i) if kind == FB_FAKE
+                         else FallbackFormulaMetricFetcher(Gen(i)))
+
+    def record(fetcher, i: int) -> None:
+        orig = fetcher.fetch_next
+
+        async def fetch_next():
+            r = await orig()
+            if not stopping:
+                trace.append(["fetch", i])
+                fetched.append([i] + (["None"] if r is None else g.canon_sample(grid, r)))
+            return r
+
+        fetcher.fetch_next = fetch_next
+
+    b = fe.FormulaBuilder("f", Quantity)
+    for i in range(n):
+        if i:
+            b.push_oper("+")
+        b.push_metric(f"#{i}", rxs[i], nones_are_zeros=case["nz"][i], fallback=fallbacks[i])
+        record(b._metric_fetchers[f"#{i}"], i)  # pylint: disable=protected-access
+    engine = b.build()
+    senders_p = [c.new_sender() for c in chans_p]
+    senders_f = [[c.new_sender() for c in cs] for cs in chans_f]
+    out_rx = None
+    spinning = False
+    for ev in case["events"]:
+        if ev[0] == "D":
+            await senders_p[ev[1]].send(g.mk_sample(grid, ev[2], ev[3]))
+            trace.append(["D", ev[1], ev[2], rat(Fraction(ev[3])) if g.is_valid(ev[3]) else None])
+            if len(ev) > 4 and not ev[4]:
+                continue
+        elif ev[0] == "F":
+            for j, s in enumerate(senders_f[ev[1]]):
+                await s.send(g.mk_sample(grid, ev[2], ev[3][j]))
+            trace.append(["F", ev[1], ev[2], fb_output(case["fb"][ev[1]], ev[3])])
+            if len(ev) > 4 and not ev[4]:
+                continue
+        elif ev[0] == "attach":
+            out_rx = engine.new_receiver(max_size=10000)
+            trace.append(["attach"])
+        if not await g.settle():
+            spinning = True
+        trace.append(["quiet"])
+    if not await g.settle():
+        spinning = True
+    trace.append(["quiet"])
+    outs = []
+    if out_rx is not None:
+        while len(out_rx):
+            s = out_rx.consume()
+            outs.append([grid.us(s.timestamp), g.canon_value(s.value)])
+    stopping.append(True)
+    await engine._stop()  # pylint: disable=protected-access
+    for f in fallbacks:
+        fb_engine = getattr(f, "_formula_engine", None)
+        if fb_engine is not None:
+            await fb_engine._stop()  # pylint: disable=protected-access
+    return {"out_us": outs, "out2_us": [], "trace": trace, "fetched": fetched, "spinning": spinning}
+
+
 def run_impl(case: dict, cap: int | None = None) -> dict:
     if case["kind"] == "single":
         return g.run_async(_run_single(case, cap, True))
+    if case["kind"] == "fb":
+        return g.run_async(_run_fb(case))
     return g.run_async(_run_3phase(case))
 
 
@@ -216,6 +379,97 @@ def oracle_single(ctx: Ctx, case: dict, obs: dict) -> None:
         viol("suffix", "the second consumer did not see a contiguous suffix of the first consumer's sequence")
 
 
+def fb_tables(case: dict) -> tuple[dict, dict]:
+    """From the fed events only: primary samples {term: {tick: val}} and every sample the fallback source of a term
+    emitted {term: {tick: canonical value}} (whether or not the lazily started receiver saw it)."""
+    prim: dict[int, dict[int, Any]] = {}
+    fbs: dict[int, dict[int, Any]] = {}
+    for ev in case["events"]:
+        if ev[0] == "D":
+            prim.setdefault(ev[1], {})[ev[2]] = ev[3]
+        elif ev[0] == "F":
+            fbs.setdefault(ev[1], {})[ev[2]] = fb_output(case["fb"][ev[1]], ev[3])
+    return prim, fbs
+
+
+def fb_candidates(case: dict, prim: dict, fbs: dict, tk: int) -> set | None:
+    """Every value the formula can have when each term uses a sample stamped `tk`: the primary sample stamped `tk`
+    if it is valid, else the fallback sample stamped `tk` (if the term has a fallback and its source emitted one) or
+    the invalid primary sample itself (C19's start-up window / fallback not there yet).  None = some primary has no
+    sample stamped `tk`."""
+    import itertools
+
+    per_term: list[list[Any]] = []
+    for i in range(case["n"]):
+        if tk not in prim.get(i, {}):
+            return None
+        pv = prim[i][tk]
+        if g.is_valid(pv):
+            per_term.append([Fraction(pv)])
+        else:
+            c: list[Any] = [None]
+            if case["fb"][i] != FB_NONE and tk in fbs.get(i, {}):
+                fv = fbs[i][tk]
+                if fv is not None and Fraction(fv) not in c:
+                    c.append(Fraction(fv))
+            per_term.append(c)
+    res = set()
+    for combo in itertools.product(*per_term):
+        tot: Any = Fraction(0)
+        for z, v in zip(case["nz"], combo):
+            if v is None:
+                if not z:
+                    tot = None
+                    break
+            else:
+                tot += v
+        res.add(None if tot is None else rat(tot))
+    return res
+
+
+def oracle_fb(ctx: Ctx, case: dict, obs: dict) -> None:
+    n, st = case["n"], case["stepus"]
+    prim, fbs = fb_tables(case)
+    outs = obs["out_us"]
+
+    def viol(clause: str, detail: str) -> None:
+        ctx.violation(clause, case, {"detail": detail, "out_us": outs, "fetched": obs["fetched"]}, regime=None)
+
+    attached = any(ev[0] == "attach" for ev in case["events"])
+    if len(prim) < n or not attached:
+        if outs:
+            viol("first", "outputs although some stream never delivered / nobody attached")
+        return
+    t_first = max(min(prim[i]) for i in range(n))
+    t_last = min(max(prim[i]) for i in range(n))
+    ticks = to_ticks(case, outs)
+    emitted = set()
+    for r, (o, t) in enumerate(zip(outs, ticks)):
+        tk = t[0]
+        if not isinstance(tk, int):
+            viol("step", f"output {r} off the input grid: {o[0]} us")
+            return
+        emitted.add(tk)
+        if r == 0 and tk != t_first:
+            viol("first", f"first output stamped tick {tk}, expected max of the first ticks = {t_first}")
+        if r > 0 and o[0] - outs[r - 1][0] != st:
+            viol("step", f"outputs {r - 1},{r}: timestamps {outs[r - 1][0]} -> {o[0]} us, step is {st} us")
+        cands = fb_candidates(case, prim, fbs, tk)
+        if cands is None:
+            viol("single-ts", f"output {r} stamped tick {tk} for which some primary stream delivered nothing")
+        elif o[1] not in cands:
+            viol("single-ts", f"output {r} stamped tick {tk}: value {o[1]} is not the formula on samples stamped {tk} "
+                              f"(primary if valid, else fallback or missing): {sorted(cands, key=str)}")
+    # complete: until a term with a fallback has seen its first invalid primary sample no fallback is running, so
+    # every tick up to (and including) that one must be emitted once all primaries have it
+    r_min = min([tk for i in range(n) if case["fb"][i] != FB_NONE for tk, v in prim[i].items() if not g.is_valid(v)],
+                default=t_last)
+    for tk in range(t_first, min(t_last, r_min) + 1):
+        if tk not in emitted:
+            viol("complete", f"tick {tk} not emitted although all primaries delivered it and no fallback was running")
+            break
+
+
 def phase_starts(case: dict) -> list[int | None]:
     tab = stream_tables(case["events"], 2)
     res: list[int | None] = []
@@ -270,7 +524,11 @@ def oracle_3phase(ctx: Ctx, case: dict, obs: dict) -> None:
 
 
 # ------------------------------------------------------------------------------------------ the model's view
-def model_case(case: dict) -> dict:
+def model_case(case: dict, obs: dict | None = None) -> dict:
+    if case["kind"] == "fb":
+        assert obs is not None
+        return {"kind": "fb", "n": case["n"], "nz": case["nz"], "fb": [k != FB_NONE for k in case["fb"]],
+                "events": obs["trace"]}
     if case["kind"] == "single":
         evs = []
         for ev in case["events"]:
@@ -289,6 +547,8 @@ def model_case(case: dict) -> dict:
 
 
 def impl_out(case: dict, obs: dict) -> dict:
+    if case["kind"] == "fb":
+        return {"out": to_ticks(case, obs["out_us"]), "fetched": obs["fetched"], "bad": []}
     return {"out": to_ticks(case, obs["out_us"])}
 
 
@@ -369,6 +629,136 @@ def gen_3phase(rng, small: bool = False) -> dict:
             "stepus": rng.choice([1_000_000, 200_000, 3]), "cap": 50, "events": evs}
 
 
+def fb_layout(kinds: list[int]) -> list[list[int]]:
+    """Digit positions (base 256) of the value encoding: per term [primary, fallback component…].  A sample of the
+    stream at position p stamped tick t has the value (t+1)*256**p, so every sum reveals which (stream, tick)s went in."""
+    pos = 0
+    lay = []
+    for k in kinds:
+        lay.append(list(range(pos, pos + 1 + FB_COMPONENTS[k])))
+        pos += 1 + FB_COMPONENTS[k]
+    return lay
+
+
+def fb_val(pos: int, tick: int) -> int:
+    return (tick + 1) * 256 ** pos
+
+
+def gen_fb(rng, small: bool = False) -> dict:
+    """Engine with 1-3 terms, at least one with a fallback (channel-backed FallbackMetricFetcher or the real
+    FallbackFormulaMetricFetcher over 1-2 component channels)."""
+    while True:
+        n = rng.choice([1, 2, 2, 2, 3])
+        kinds = [rng.choice([FB_NONE, FB_FAKE, FB_FAKE, FB_REAL1, FB_REAL2]) for _ in range(n)]
+        if any(kinds) and sum(1 + FB_COMPONENTS[k] for k in kinds) <= 6:
+            break
+    lay = fb_layout(kinds)
+    base = rng.choice([2, 2, 5])
+    same = rng.random() < 0.5
+    t0s = [base + (0 if same else rng.choice([0, 0, 1, 2, 3])) for _ in range(n)]
+    length = rng.randint(3, 6 if small else 11)
+    hi = max(t0s) + length  # exclusive last tick (about)
+    seqs: list[list[Any]] = []
+    p_seqs: list[list[Any]] = []
+    f_seqs: list[list[Any]] = []
+    for i in range(n):
+        # primary: runs of valid / invalid samples; terms with a fallback fail more often
+        flip = 0.3 if kinds[i] else 0.1
+        bad = rng.random() < (0.25 if kinds[i] else 0.05)
+        ps = []
+        for t in range(t0s[i], hi + rng.choice([0, 0, 1])):
+            if rng.random() < flip:
+                bad = not bad
+            v = rng.choice([None, None, "nan", "inf"]) if bad else fb_val(lay[i][0], t)
+            ps.append(["D", i, t, v, 0 if rng.random() < 0.15 else 1])
+        p_seqs.append(ps)
+        fs = []
+        if kinds[i]:
+            # the fallback source is its own gap-free stream; where it starts relative to the primary is free
+            g0 = max(0, t0s[i] + rng.choice([-2, -1, 0, 0, 0, 1, 2, 4]))
+            fbad = False
+            for t in range(g0, hi + rng.choice([0, 1, 3])):
+                if rng.random() < 0.15:
+                    fbad = not fbad
+                comps = []
+                for pos in lay[i][1:]:
+                    comps.append(rng.choice([None, "nan"]) if (fbad and rng.random() < 0.7) else fb_val(pos, t))
+                fs.append(["F", i, t, comps, 0 if rng.random() < 0.1 else 1])
+        f_seqs.append(fs)
+    style = rng.random()
+    if style < 0.45:
+        # wall-clock style: at clock tick t stream s delivers its tick t - lag_s (a lagging term keeps the engine
+        # behind; a fallback started while the engine works through the backlog first sees a LATER tick)
+        lag_p = [rng.choice([0, 0, 0, 1, 2, 4]) for _ in range(n)]
+        lag_f = [rng.choice([0, 0, 0, 1, -1, 2]) for _ in range(n)]
+        evs: list[Any] = []
+        idx_p = [0] * n
+        idx_f = [0] * n
+        for t in range(0, hi + 10):
+            group = []
+            for i in range(n):
+                while idx_p[i] < len(p_seqs[i]) and p_seqs[i][idx_p[i]][2] <= t - lag_p[i]:
+                    group.append([p_seqs[i][idx_p[i]]])
+                    idx_p[i] += 1
+                while idx_f[i] < len(f_seqs[i]) and f_seqs[i][idx_f[i]][2] <= t - lag_f[i]:
+                    group.append([f_seqs[i][idx_f[i]]])
+                    idx_f[i] += 1
+            # several events of one stream in a group keep their order: merge them per stream first
+            by: dict[tuple, list] = {}
+            for [e] in group:
+                by.setdefault((e[0], e[1]), []).append(e)
+            evs += g.interleave(rng, list(by.values()), burst=0.2)
+        pos = rng.choice([0, 0, rng.randint(0, len(evs)), rng.randint(0, len(evs)), len(evs)])
+        evs.insert(pos, ["attach"])
+    elif style < 0.65:
+        # backlog: the primaries deliver a burst before the consumer attaches; fallback sources follow
+        k = rng.randint(2, length)
+        head = merge(rng, [s[:k] for s in p_seqs])
+        tail = g.interleave(rng, [s[k:] for s in p_seqs] + f_seqs, burst=rng.choice([0.2, 0.5, 0.8]))
+        early = rng.randint(0, 3)
+        pre_f = []
+        for fs in f_seqs:  # part of a fallback source's stream may be emitted before anybody listens
+            cut = min(early, len(fs))
+            pre_f.append(fs[:cut])
+        if early:
+            tail = g.interleave(rng, [s[k:] for s in p_seqs] + [fs[len(pf):] for fs, pf in zip(f_seqs, pre_f)],
+                                burst=rng.choice([0.2, 0.5, 0.8]))
+            head = g.interleave(rng, [head] + pre_f, burst=0.5)
+        evs = head + [["attach"]] + tail
+    else:
+        evs = merge(rng, p_seqs + f_seqs)
+        evs.insert(rng.choice([0, 0, rng.randint(0, len(evs)), len(evs)]), ["attach"])
+    return {"kind": "fb", "n": n, "nz": [rng.random() < 0.6 for _ in range(n)], "fb": kinds,
+            "t0us": rng.choice([0, 500_000, 123_456_789]), "stepus": rng.choice([1_000_000, 200_000, 1, 7_000_000]),
+            "cap": 50, "events": evs}
+
+
+def exhaustive_fb_cases():
+    """`#a + #b`, `#a` with a channel-backed fallback; 4 ticks; every valid/invalid pattern of `#a` (first sample
+    valid or not), fallback source starting at tick 0..3 and emitted in wall-clock step with lag -1..2, `#b` lagging
+    0..2 ticks, consumer attached first or after a backlog of 2 ticks."""
+    import itertools
+
+    lay = fb_layout([FB_FAKE, FB_NONE])
+    for pat in itertools.product("vm", repeat=4):
+        for g0 in range(4):
+            for flag in (-1, 0, 1, 2):
+                for lag in (0, 1, 2):
+                    for att in (0, 2):
+                        evs: list[Any] = []
+                        for t in range(-1, 9):
+                            if t == att:
+                                evs.append(["attach"])
+                            if 0 <= t < 4:
+                                evs.append(["D", 0, t, fb_val(lay[0][0], t) if pat[t] == "v" else None, 1])
+                            if g0 <= t - flag < 6:
+                                evs.append(["F", 0, t - flag, [fb_val(lay[0][1], t - flag)], 1])
+                            if 0 <= t - lag < 4:
+                                evs.append(["D", 1, t - lag, fb_val(lay[1][0], t - lag), 1])
+                        yield {"kind": "fb", "n": 2, "nz": [True, False], "fb": [FB_FAKE, FB_NONE], "t0us": 0,
+                               "stepus": 1_000_000, "cap": 50, "events": evs}
+
+
 def exhaustive_cases():
     """2 streams, first ticks 0..2, 4 deliveries each: every interleaving, consumer attached first or last."""
     for off in (0, 1, 2):
@@ -409,8 +799,53 @@ def tags_of(case: dict) -> tuple[list[str], bool]:
     return tags, True
 
 
+def tags_fb(case: dict, obs: dict) -> tuple[list[str], bool]:
+    """Distribution evidence of the fallback family (read off the observed trace; not used by the oracle)."""
+    names = {FB_FAKE: "channel", FB_REAL1: "real1", FB_REAL2: "real2"}
+    tags = ["fb", f"fb-terms:{case['n']}"] + sorted({"fb-kind:" + names[k] for k in case["fb"] if k})
+    prim, _ = fb_tables(case)
+    if len({min(v) for v in prim.values()}) > 1:
+        tags.append("fb:different-start")
+    pos = [e[0] for e in case["events"]].index("attach")
+    tags.append("fb-attach:" + ("first" if pos == 0 else "last" if pos == len(case["events"]) - 1 else "middle"))
+    nontrivial = False
+    fetch_no = 0
+    started: dict[int, tuple[int, int]] = {}  # term -> (trace index of the fetch that started the fallback, its tick)
+    for idx, ev in enumerate(obs["trace"]):
+        if ev[0] == "fetch":
+            rec = obs["fetched"][fetch_no]
+            fetch_no += 1
+            i = ev[1]
+            if case["fb"][i] and i not in started and len(rec) == 3 and rec[2] is None:
+                started[i] = (idx, rec[1])
+    for i, (idx, tick) in started.items():
+        first_seen = next((ev[2] for ev in obs["trace"][idx + 1:] if ev[0] == "F" and ev[1] == i), None)
+        if first_seen is None:
+            tags.append("fb-first-sample:never")
+            continue
+        nontrivial = True
+        d = first_seen - (tick + 1)
+        tags.append("fb-first-sample:" + ("earlier" if d < 0 else "same-tick" if d == 0 else "later") +
+                    "-than-next-primary")
+        vals = [prim[i][t] for t in sorted(prim[i]) if t > tick]
+        if any(g.is_valid(v) for v in vals):
+            tags.append("fb:primary-recovers")
+        if d > 0 and vals and not g.is_valid(vals[0]):
+            tags.append("fb:invalid-primary-behind-fallback")
+    if not started:
+        tags.append("fb:never-started")
+    return tags, nontrivial
+
+
 def check_case(ctx: Ctx, case: dict, tight: bool = False) -> tuple[dict, dict]:
     obs = run_impl(case)
+    if case["kind"] == "fb":
+        oracle_fb(ctx, case, obs)
+        tags, nontrivial = tags_fb(case, obs)
+        if obs.get("spinning"):
+            tags.append("engine-spinning")
+        ctx.case(case, tags=tags, nontrivial=nontrivial)
+        return model_case(case, obs), impl_out(case, obs)
     tags, nontrivial = tags_of(case)
     if case["kind"] == "single":
         oracle_single(ctx, case, obs)
@@ -443,8 +878,17 @@ def run(ctx: Ctx) -> None:
         m, o = check_case(ctx, case, tight=(i % 5 == 0))
         cases.append(m)
         outs.append(o)
+    for i in range(ctx.budget(2000, 20000)):
+        rng = ctx.subrng("fb", i)
+        m, o = check_case(ctx, gen_fb(rng, small=i % 3 == 0))
+        cases.append(m)
+        outs.append(o)
     if ctx.tier == "thorough":
         for case in exhaustive_cases():
+            m, o = check_case(ctx, case)
+            cases.append(m)
+            outs.append(o)
+        for case in exhaustive_fb_cases():
             m, o = check_case(ctx, case)
             cases.append(m)
             outs.append(o)
